@@ -46,6 +46,16 @@ func zList(is []int) string {
 	}
 	return vkit.List(xs)
 }
+// fuel for a chain of n vertices: the recursion is nearly balanced; by tessellation_result_independent_of_fuel
+// any fuel that suffices gives the result of fuel 64, and a small one keeps a disagreeing case cheap
+func fuelFor(n int) string {
+	f := 8
+	for m := n; m > 0; m >>= 1 {
+		f++
+	}
+	return fmt.Sprintf("%d%%nat", f)
+}
+
 func someEq(eq, model, obs string) string {
 	return fmt.Sprintf("(match %s with Some l => list_eqb %s l %s | None => false end)", model, eq, obs)
 }
@@ -247,11 +257,11 @@ func corrTessellation(c *vkit.Collector, rng *vkit.Rng, budget int) {
 			vs := tess.AppendProjected(a, b, nil)
 			if len(vs) <= 260 {
 				c.Eval("tessP:"+key, len(vs) > 2)
-				c.Check("AppendProjected "+key, someEq("r2_Point_eqbits", vkit.App("AppendProjected", "tess_fuel", pcTerm(scale), thr, ptTerm(a), ptTerm(b), "[]"), r2List(vs)))
+				c.Check("AppendProjected "+key, someEq("r2_Point_eqbits", vkit.App("AppendProjected", fuelFor(len(vs)), pcTerm(scale), thr, ptTerm(a), ptTerm(b), "[]"), r2List(vs)))
 				// appending to a non-empty chain wraps the first vertex relative to the last one
 				pre := []r2.Point{{X: pa.X + 2*scale*float64(rng.Intn(3)-1), Y: pa.Y}}
 				vs2 := tess.AppendProjected(a, b, append([]r2.Point{}, pre...))
-				c.Check("AppendProjected(nonempty) "+key, someEq("r2_Point_eqbits", vkit.App("AppendProjected", "tess_fuel", pcTerm(scale), thr, ptTerm(a), ptTerm(b), r2List(pre)), r2List(vs2)))
+				c.Check("AppendProjected(nonempty) "+key, someEq("r2_Point_eqbits", vkit.App("AppendProjected", fuelFor(len(vs2)), pcTerm(scale), thr, ptTerm(a), ptTerm(b), r2List(pre)), r2List(vs2)))
 			}
 		} else {
 			qa := pa
@@ -259,7 +269,7 @@ func corrTessellation(c *vkit.Collector, rng *vkit.Rng, budget int) {
 			vs := tess.AppendUnprojected(qa, qb, nil)
 			if len(vs) <= 260 {
 				c.Eval("tessU:"+key, len(vs) > 2)
-				c.Check("AppendUnprojected "+key, someEq("s2_Point_eqbits", vkit.App("AppendUnprojected", "tess_fuel", pcTerm(scale), thr, r2Term(qa), r2Term(qb), "[]"), ptList(vs)))
+				c.Check("AppendUnprojected "+key, someEq("s2_Point_eqbits", vkit.App("AppendUnprojected", fuelFor(len(vs)), pcTerm(scale), thr, r2Term(qa), r2Term(qb), "[]"), ptList(vs)))
 			}
 		}
 	}
@@ -339,6 +349,19 @@ func snapPoints(rng *vkit.Rng, c *vkit.Collector, level int) []s2.Point {
 	return ps
 }
 
+// snapSome: five of the adversarial points per unit of budget
+func snapSome(rng *vkit.Rng, c *vkit.Collector, level, budget int) []s2.Point {
+	out := []s2.Point{}
+	for r := 0; r < budget; r++ {
+		ps := snapPoints(rng, c, level)
+		off := rng.Intn(len(ps))
+		for k := 0; k < 5; k++ {
+			out = append(out, ps[(off+k)%len(ps)])
+		}
+	}
+	return out
+}
+
 func corrSnap(c *vkit.Collector, rng *vkit.Rng, budget int) {
 	dl, dr := s2.VerifC20CellIDSnapperFields(s2.NewCellIDSnapper())
 	c.Check("NewCellIDSnapper", vkit.App("s2_CellIDSnapper_eqbits", "s2_NewCellIDSnapper", vkit.App("mk_s2_CellIDSnapper", vkit.Z(int64(dl)), vkit.F(float64(dr)))))
@@ -349,7 +372,7 @@ func corrSnap(c *vkit.Collector, rng *vkit.Rng, budget int) {
 		for _, rr := range []float64{float64(r), vkit.Ulps(float64(r), -1), float64(r) * 1.5, float64(r) * 2.1} {
 			c.Check(fmt.Sprintf("levelForMaxSnapRadius %d", level), vkit.App("Z.eqb", vkit.App("s2_CellIDSnapper_levelForMaxSnapRadius", "s2_NewCellIDSnapper", vkit.F(rr)), vkit.Z(int64(s2.VerifC20LevelForMaxSnapRadius(s1.Angle(rr))))))
 		}
-		for _, p := range snapPoints(rng, c, level)[:3+2*budget] {
+		for _, p := range snapSome(rng, c, level, budget) {
 			q := sf.SnapPoint(p)
 			c.Eval(fmt.Sprintf("cellsnap:%d:%x", level, math.Float64bits(p.X)), true)
 			c.Check(fmt.Sprintf("CellIDSnapper.SnapPoint level %d", level), vkit.App("s2_Point_eqbits", vkit.App("cellid_snap", vkit.Z(int64(level)), ptTerm(p)), ptTerm(q)))
@@ -360,7 +383,7 @@ func corrSnap(c *vkit.Collector, rng *vkit.Rng, budget int) {
 		ex, r, from, to := s2.VerifC20IntLatLngSnapperFields(sf)
 		sfT := vkit.App("s2_NewIntLatLngSnapper", vkit.Z(int64(e)))
 		c.Check(fmt.Sprintf("NewIntLatLngSnapper %d", e), vkit.App("s2_IntLatLngSnapper_eqbits", sfT, vkit.App("mk_s2_IntLatLngSnapper", vkit.Z(int64(ex)), vkit.F(float64(r)), vkit.F(float64(from)), vkit.F(float64(to)))))
-		for _, p := range snapPoints(rng, c, rng.Intn(31))[:3+2*budget] {
+		for _, p := range snapSome(rng, c, rng.Intn(31), budget) {
 			q := sf.SnapPoint(p)
 			c.Eval(fmt.Sprintf("llsnap:%d:%x", e, math.Float64bits(p.X)), true)
 			c.Check(fmt.Sprintf("IntLatLngSnapper.SnapPoint e=%d", e), vkit.App("s2_Point_eqbits", vkit.App("s2_IntLatLngSnapper_SnapPoint", sfT, ptTerm(p)), ptTerm(q)))
@@ -377,7 +400,9 @@ func corrSnap(c *vkit.Collector, rng *vkit.Rng, budget int) {
 		case 2:
 			x = vkit.Ulps(float64(rng.Intn(100))+0.5, rng.Intn(3)-1)
 		case 3:
-			x = rng.Pick([]float64{0, math.Copysign(0, -1), 0.5, -0.5, 0.49999999999999994, 1.5, 2.5, 4503599627370495.5, 4503599627370496, 9e15, -1e300, math.Inf(1), math.Inf(-1)})
+			x = rng.Pick([]float64{0, math.Copysign(0, -1), 0.5, -0.5, 0.49999999999999994, 1.5, 2.5, 4503599627370495.5, 4503599627370496, 9e15, -6e15})
+			// |x| >= 2^53 is left out: the translated code then shifts by a wrapped-around count (0 in Go), which
+			// Base/GoPrim.go_shr evaluates by iterating the count (does not terminate in practice)
 		default:
 			x = rng.Range(-1e6, 1e6)
 		}
